@@ -1,6 +1,8 @@
 package main
 
 import (
+	"bytes"
+	"encoding/binary"
 	"encoding/hex"
 	"encoding/json"
 	"fmt"
@@ -12,6 +14,8 @@ import (
 	"strings"
 	"sync"
 	"time"
+
+	"github.com/tormoder/fit"
 )
 
 // C09: concurrent use on independent inputs is race-free and equals
@@ -120,6 +124,14 @@ func runC09(args []string) int {
 		}
 		return &ro, logs.String(), code, nil
 	}
+
+	// ------------------------------------------------------------ the pool, prepared here
+	poolPath := filepath.Join(runDir, "c09-pool.json")
+	if err := c09PreparePool(o, poolPath); err != nil {
+		fmt.Println("c09: preparing the pool:", err)
+		return 2
+	}
+	os.Setenv("C09_POOL", poolPath)
 
 	// ------------------------------------------------------------ inside the domain
 	dom, domLog, domCode, err := runPhase("domain")
@@ -259,6 +271,95 @@ func raceSummary(log string) string {
 	return strings.Join(out, "\n")
 }
 
+type c09Spec struct {
+	Streams  []c08Input `json:"streams"`
+	Files    []c08Input `json:"files"` // kind filestream: bytes whose Decode yields the File to encode
+	Excluded int        `json:"excluded_outside_domain"`
+}
+
+// c09PreparePool runs in the parent (`vh c09`, no race detector): it generates
+// the inputs, keeps those the model classifies as inside the domain of
+// C09_noninterference (run fresh, the model leaves every accumulator nil) and
+// writes them as plain bytes.
+func c09PreparePool(o runOpts, path string) error {
+	d, err := startDriver(o.driver)
+	if err != nil {
+		return err
+	}
+	defer d.close()
+	rg := newRng(o.seed)
+	st := genStats{}
+	var spec c09Spec
+	inDomain := func(data []byte, needOK bool) bool {
+		rs := readerSpec{Data: data}
+		resp, err := d.ask(fmt.Sprintf("decode C %s %s %s", optSet{}.String(), rs.driverArgs(), "-/-/-"))
+		if err != nil {
+			return false
+		}
+		m, err := parseModel("C", resp)
+		if err != nil || (m.G != "-/-/-" && m.G != "") || m.Panic != "" {
+			return false
+		}
+		return !needOK || m.ErrClass == 0
+	}
+	add := func(id, origin string, data []byte) {
+		if !inDomain(data, false) {
+			spec.Excluded++
+			return
+		}
+		spec.Streams = append(spec.Streams, c08Input{ID: id, Kind: "stream", Hex: hex.EncodeToString(data), Origin: origin, data: data})
+	}
+	b, _ := hex.DecodeString(c08PlainHex)
+	add("witness_plain", "witness", b)
+	nGen := 60
+	if o.tier == "thorough" {
+		nGen = 400
+	}
+	for i := 0; i < nGen; i++ {
+		cfg := defaultCfg()
+		if i%5 == 0 {
+			cfg.illFormed = 60
+		}
+		s := genStream(rg.fork(), &cfg, st)
+		add(fmt.Sprintf("gen%d", i), "generated", s.bytes())
+	}
+	for i := 0; i < 6; i++ {
+		s := c08ComponentStream(rg.fork(), false, false, false)
+		add(fmt.Sprintf("records%d", i), "component", s.bytes())
+	}
+	filepath.Walk(filepath.Join(repoRoot, "testdata"), func(p string, info os.FileInfo, err error) error {
+		if err != nil || info.IsDir() || !strings.HasSuffix(p, ".fit") || info.Size() > c08ModelMax {
+			return nil
+		}
+		data, err := os.ReadFile(p)
+		if err == nil {
+			rel, _ := filepath.Rel(repoRoot, p)
+			add("testdata:"+rel, "testdata", data)
+		}
+		return nil
+	})
+	if n := len(spec.Streams); n > 3 {
+		for i := 0; i < 8; i++ {
+			a, c := spec.Streams[rg.intn(n)], spec.Streams[rg.intn(n)]
+			if len(a.data)+len(c.data) <= c08ModelMax {
+				add("chain("+a.ID+"+"+c.ID+")", "chained", append(append([]byte{}, a.data...), c.data...))
+			}
+		}
+	}
+	// Files, as the bytes Encode writes for them here
+	for i, tries := 0, 0; i < 16 && tries < 64; tries++ {
+		in := c08Input{ID: fmt.Sprintf("file%d", i), Kind: "file", FileSeed: rg.u64(), AllowCsd: false, BE: i%2 == 1}
+		main, data := c08Encode(c08GenFile(in))
+		if !strings.HasPrefix(main, "err=0") || len(data) == 0 || len(data) > c08ModelMax || !inDomain(data, true) {
+			continue
+		}
+		spec.Files = append(spec.Files, c08Input{ID: in.ID, Kind: "filestream", Hex: hex.EncodeToString(data), BE: in.BE, Origin: "generated File, encoded by the parent"})
+		i++
+	}
+	out, _ := json.Marshal(spec)
+	return os.WriteFile(path, out, 0o644)
+}
+
 // ---------------------------------------------------------------- race binary side
 
 // the File generator of the harness keeps process-wide statistics: building
@@ -268,6 +369,31 @@ var c09GenMu sync.Mutex
 func c09Call(c c08Call) string {
 	switch c.Entry {
 	case "E":
+		if c.In.Kind == "filestream" {
+			// the File is obtained by decoding bytes prepared by the parent
+			// process: nothing but entry points of the library is called
+			out := "PANIC"
+			func() {
+				defer func() {
+					if r := recover(); r != nil {
+						out = fmt.Sprint("PANIC ", r)
+					}
+				}()
+				f, err := fit.Decode(bytes.NewReader(c.In.data))
+				if err != nil || f == nil {
+					out = fmt.Sprintf("decode of the prepared stream failed: %v", err)
+					return
+				}
+				var arch binary.ByteOrder = binary.LittleEndian
+				if c.In.BE {
+					arch = binary.BigEndian
+				}
+				var buf bytes.Buffer
+				err = fit.Encode(&buf, f, arch)
+				out = fmt.Sprintf("err=%d bytes=%s hdr=%s crc=%d", errClass(err), hex.EncodeToString(buf.Bytes()), canonHeader(f.Header), f.CRC)
+			}()
+			return out
+		}
 		c09GenMu.Lock()
 		fc := c08GenFile(c.In)
 		c09GenMu.Unlock()
@@ -354,69 +480,28 @@ func runC09Race(args []string) int {
 		return 0
 	}
 
-	// phase domain
-	d, err := startDriver(o.driver)
-	if err != nil {
-		return fail(err)
-	}
-	defer d.close()
-	st := genStats{}
-	var streams []c08Input
-	add := func(id, origin string, data []byte) {
-		// inside the domain of C09_noninterference? the model, run fresh, must leave every accumulator nil
-		rs := readerSpec{Data: data}
-		resp, err := d.ask(fmt.Sprintf("decode C %s %s %s", optSet{}.String(), rs.driverArgs(), "-/-/-"))
+	// phase domain: the pool was prepared by the parent process (stream bytes,
+	// and per File the bytes of a stream whose Decode yields it), so that this
+	// process touches the library for the very first time from many
+	// goroutines at once (cold round below)
+	var spec c09Spec
+	{
+		b, err := os.ReadFile(os.Getenv("C09_POOL"))
 		if err != nil {
-			return
+			return fail(err)
 		}
-		m, err := parseModel("C", resp)
-		if err != nil || (m.G != "-/-/-" && m.G != "") || m.Panic != "" {
-			out.Excluded++
-			return
-		}
-		streams = append(streams, c08Input{ID: id, Kind: "stream", Hex: hex.EncodeToString(data), Origin: origin, data: data})
-	}
-	b, _ := hex.DecodeString(c08PlainHex)
-	add("witness_plain", "witness", b)
-	nGen := 60
-	if o.tier == "thorough" {
-		nGen = 400
-	}
-	for i := 0; i < nGen; i++ {
-		cfg := defaultCfg()
-		if i%5 == 0 {
-			cfg.illFormed = 60
-		}
-		s := genStream(rg.fork(), &cfg, st)
-		add(fmt.Sprintf("gen%d", i), "generated", s.bytes())
-	}
-	for i := 0; i < 6; i++ {
-		s := c08ComponentStream(rg.fork(), false, false, false)
-		add(fmt.Sprintf("records%d", i), "component", s.bytes())
-	}
-	filepath.Walk(filepath.Join(repoRoot, "testdata"), func(p string, info os.FileInfo, err error) error {
-		if err != nil || info.IsDir() || !strings.HasSuffix(p, ".fit") || info.Size() > c08ModelMax {
-			return nil
-		}
-		data, err := os.ReadFile(p)
-		if err == nil {
-			rel, _ := filepath.Rel(repoRoot, p)
-			add("testdata:"+rel, "testdata", data)
-		}
-		return nil
-	})
-	if len(streams) > 3 {
-		for i := 0; i < 8; i++ {
-			a, c := streams[rg.intn(len(streams))], streams[rg.intn(len(streams))]
-			if len(a.data)+len(c.data) <= c08ModelMax {
-				add("chain("+a.ID+"+"+c.ID+")", "chained", append(append([]byte{}, a.data...), c.data...))
-			}
+		if err := json.Unmarshal(b, &spec); err != nil {
+			return fail(err)
 		}
 	}
-	var files []c08Input
-	for i := 0; i < 16; i++ {
-		files = append(files, c08Input{ID: fmt.Sprintf("file%d", i), Kind: "file", FileSeed: rg.u64(), AllowCsd: i%4 == 0, BE: i%2 == 1})
+	streams, files := spec.Streams, spec.Files
+	for i := range streams {
+		streams[i].data, _ = hex.DecodeString(streams[i].Hex)
 	}
+	for i := range files {
+		files[i].data, _ = hex.DecodeString(files[i].Hex)
+	}
+	out.Excluded = spec.Excluded
 	out.Pool = len(streams) + len(files)
 	var decCalls, encCalls []c08Call
 	for _, s := range streams {
@@ -452,7 +537,7 @@ func runC09Race(args []string) int {
 				var mine []coldRes
 				for i := 0; i < 40; i++ {
 					c := all[lr.intn(len(all))]
-					if i%2 == 0 {
+					if (i+g)%2 == 0 {
 						c = encCalls[lr.intn(len(encCalls))]
 					}
 					mine = append(mine, coldRes{g, c, c09Call(c)})
